@@ -61,7 +61,7 @@ def plan(tier, seed):
 
 
 def run_child(seq, timeout=120):
-    spec = {'imports': [FORMS[i] for i in seq], 'markup': MARKUP, 'markup2': MARKUP2, 'selectors': SELECTORS + ['div:-soup-contains("beta")'],
+    spec = {'imports': [FORMS[i] for i in seq], 'markup': MARKUP, 'markup2': MARKUP2, 'selectors': SELECTORS + ['div:-soup-contains("beta")', '[data-v="3 4"]', '[data-v~=b], [data-v="7"]', '.k', '[data-v]:not([data-v*=a])'],
             'parsers': PARSERS}
     d = tempfile.mkdtemp(prefix='c16.')
     try:
